@@ -73,6 +73,11 @@ type Node struct {
 	OwnKey   int
 	// Loopbacks the node has sent to itself and that the harness has not delivered yet.
 	Pending []*gossipv1.SignedObservation
+	// input channels of the real Run loop (used by RunNode only)
+	LockC     chan *common.MessagePublication
+	SetC      chan *common.GuardianSet
+	InjectC   chan *vaa.VAA
+	SignedInC chan *gossipv1.SignedVAAWithQuorum
 }
 
 // Out is everything observable that one transition produced.
@@ -120,9 +125,10 @@ func (w *World) NewNode(ownKey int, reqCap int) *Node {
 		}
 	}()
 	n.unsub = func() { rep.Unsubscribe(sub.ClientId); close(msgC) }
+	n.LockC, n.SetC, n.InjectC, n.SignedInC = make(chan *common.MessagePublication), make(chan *common.GuardianSet), make(chan *vaa.VAA), make(chan *gossipv1.SignedVAAWithQuorum)
 	n.P = processor.NewProcessor(w.Ctx, w.DB,
-		make(chan *common.MessagePublication), make(chan *common.GuardianSet), n.SendC, n.ObsvC, n.ObsvReqC,
-		make(chan *vaa.VAA), make(chan *gossipv1.SignedVAAWithQuorum),
+		n.LockC, n.SetC, n.SendC, n.ObsvC, n.ObsvReqC,
+		n.InjectC, n.SignedInC,
 		keys.Signer{I: ownKey}, n.GST, rep, nil, GovChain, GovAddr)
 	return n
 }
